@@ -28,10 +28,10 @@ func (g *gen) callGraph() {
 			case 3:
 				return tAny
 			case 4, 5:
-				t := g.namedType(func(t *Ty) bool { return t.kind() == KStruct && !t.Generic })
+				t := g.namedType(func(t *Ty) bool { return t.kind() == KStruct && !t.Generic }, 0, 10)
 				return ptrTo(t)
 			case 6:
-				t := g.namedType(func(t *Ty) bool { return t.Named && t.Under != nil && t.Under.K == KIface && len(t.Impls) > 0 })
+				t := g.namedType(func(t *Ty) bool { return t.Named && t.Under != nil && t.Under.K == KIface && len(t.Impls) > 0 }, 6)
 				return t
 			case 7:
 				return pick(g, "cgnillable", funcOf(nil, nil), sliceOf(tInt), mapOf(tString, tInt), chanOf(0, tInt), ptrTo(tInt))
@@ -161,7 +161,7 @@ func (g *gen) callGraph() {
 						uses = append(uses, "_ = *"+c)
 					} else if r.kind() == KIface {
 						g.feat("cg_result_assert")
-						uses = append(uses, "_, _ = "+c+".("+pick(g, "asserted", "interface{ M() }", "error", "fmt.Stringer", "*int")+")")
+						uses = append(uses, "_, _ = "+c+".("+pick(g, "asserted", "interface{ M() }", "error", "fmt.Stringer", "interface{ Error() string; Is(error) bool }", "any")+")")
 					} else {
 						uses = append(uses, "_ = "+c)
 					}
@@ -192,7 +192,10 @@ func (g *gen) allocOf(t *Ty) string {
 		it := g.errorType()
 		if it.Ptr {
 			g.feat("cg_alloc_ptr_impl")
-			return "&" + g.tn(it.T) + "{}"
+			if it.T.literalable() {
+				return "&" + g.tn(it.T) + "{}"
+			}
+			return "new(" + g.tn(it.T) + ")"
 		}
 		return g.val(it.T, 1)
 	case t.Name == "fmt.Stringer":
